@@ -987,6 +987,21 @@ def solve(objfun, x0, h=None, lh=None, prox_uh=None, argsf=(), argsh=(), argspro
     if nsamples is None:
         nsamples = lambda delta, rho, iter, nruns: 1  # no averaging
 
+    # Check the user's bounds now: below they are converted into a projection and/or scaled to the unit box,
+    # after which the usual checks no longer see them (or the scaling itself fails)
+    bounds_msg = None
+    if np.shape(xl) != (n,):
+        bounds_msg = "lower bounds must have same shape as x0"
+    elif np.shape(xu) != (n,):
+        bounds_msg = "upper bounds must have same shape as x0"
+    elif projections and np.min(xu - xl) < 2.0 * rhobeg:
+        bounds_msg = "gap between lower and upper must be at least 2*rhobeg"
+    elif scaling_within_bounds and not np.min(xu - xl) > 0.0:
+        bounds_msg = "upper bounds must be strictly greater than lower bounds"
+    if bounds_msg is not None:
+        exit_info = ExitInformation(EXIT_INPUT_ERROR, bounds_msg)
+        return OptimResults(None, None, None, None, 0, 0, 0, exit_info.flag, exit_info.message(with_stem=True), None, None)
+
     # If using arbitrary constraints, create projection from bounds
     if projections:
         xlb = xl.copy()
